@@ -1467,6 +1467,19 @@ class PolyhedralTermList(TermList):  # noqa: WPS338
         if terms_added < num_vars_to_elim:
             raise ValueError("Context has insufficient information")
 
+        # The selected rows will be solved as equalities for the forbidden variables. The substitution is
+        # only valid if the forbidden part of the term is a nonnegative (refine) or nonpositive (relax)
+        # combination of the selected rows, i.e., if the rows bound the variables from the right side.
+        row_matrix = np.array([[row.get_coefficient(var) for var in forbidden_vars] for row in matrix_row_terms])
+        goal = np.array([term.get_coefficient(var) for var in forbidden_vars])
+        try:
+            multipliers = np.linalg.solve(row_matrix.T, goal)
+        except np.linalg.LinAlgError as e:
+            raise ValueError("Selected context rows are linearly dependent") from e
+        tolerance = 1e-9
+        if (refine and np.any(multipliers < -tolerance)) or (not refine and np.any(multipliers > tolerance)):
+            raise ValueError("Selected context rows bound the variables from the wrong side")
+
         return matrix_row_terms, forbidden_vars
 
     @staticmethod
